@@ -101,6 +101,17 @@ check('C16', 'model_checking',
       'TLA+ transcription of the text rebuild + TLC-enumerated inner queries, stored texts judged by TLC',
       'DESIGN.md 2.4, 5/C16')
 
+check('C12', 'model_checking',
+      'Prepared.tla states the prepare/info/execute protocol; TLC enumerates every history of 3 (thorough 4) actions '
+      'with the outcomes the contract allows; each history is driven through a real QueryPlanner for 27 statements '
+      'with placeholders in every listed position and every observed outcome must be allowed, an inlined plan must '
+      'equal the plan of the text with the values written in textual order; the numbering order of placeholders is '
+      'judged by TLC against the textual order defined by Traversal.tla.',
+      'Statement list is fixed (27 shapes); value lists are distinct integers; a shape the prepare step refuses is not '
+      'judged further.',
+      'TLA+ protocol spec, TLC-enumerated histories replayed into the planner; TLC-judged placeholder order',
+      'DESIGN.md 2.9, 5/C12')
+
 ALL = ['C%02d' % i for i in range(1, 21)]
 
 
